@@ -15,15 +15,16 @@ import (
 func init() { monitors["C16"] = monC16 }
 
 type loggerCase struct {
-	ID      int    `json:"id"`
-	Size    int    `json:"size"`
-	Content string `json:"content"` // random | zeros | text
-	Seed    uint64 `json:"seed"`
-	Stdin   string `json:"stdin_mode"` // file | pipe | pipe-close-at-once
-	Chunk   int    `json:"chunk"`
-	GapUs   int    `json:"gap_us"`
-	Hook    string `json:"hook_profile"`
-	Procs   int    `json:"gomaxprocs"`
+	ID        int    `json:"id"`
+	Size      int    `json:"size"`
+	Content   string `json:"content"` // random | zeros | text
+	Seed      uint64 `json:"seed"`
+	Stdin     string `json:"stdin_mode"` // file | pipe | pipe-close-at-once
+	Chunk     int    `json:"chunk"`
+	GapUs     int    `json:"gap_us"`
+	Hook      string `json:"hook_profile"`
+	Procs     int    `json:"gomaxprocs"`
+	LogEvents bool   `json:"log_events"`
 }
 
 func loggerInput(k loggerCase) []byte {
@@ -47,8 +48,8 @@ func execC16(c *child.Ctx, k loggerCase, cj []byte) {
 	os.MkdirAll(dir, 0755)
 	defer os.RemoveAll(dir)
 	logDir := filepath.Join(dir, "record")
-	os.WriteFile(filepath.Join(dir, "cfg.json"), []byte(fmt.Sprintf(`{"log_events": false, "message_log_directory": %q, "directory_for_old_message_logs": %q, "event_log_directory": %q}`,
-		logDir, filepath.Join(dir, "old"), filepath.Join(dir, "events"))), 0644)
+	os.WriteFile(filepath.Join(dir, "cfg.json"), []byte(fmt.Sprintf(`{"log_events": %v, "message_log_directory": %q, "directory_for_old_message_logs": %q, "event_log_directory": %q}`,
+		k.LogEvents, logDir, filepath.Join(dir, "old"), filepath.Join(dir, "events"))), 0644)
 	ak := appCase{ID: k.ID, StdinMode: "pipe", StdoutMode: "fast", Chunk: k.Chunk, ReaderUs: k.GapUs, Procs: k.Procs, HookProfile: k.Hook}
 	if k.Stdin == "file" {
 		ak.StdinMode = "file"
@@ -104,7 +105,7 @@ func monC16(c *child.Ctx, replay json.RawMessage) {
 	for i := 0; i < n; i++ {
 		k := loggerCase{ID: c.Batch*100000 + i, Seed: r.Uint64() >> 1, Content: []string{"random", "random", "zeros", "text"}[r.Intn(4)],
 			Stdin: []string{"file", "pipe", "pipe", "pipe-close-at-once"}[r.Intn(4)], Chunk: []int{0, 1000, 8096, 100}[r.Intn(4)], GapUs: []int{0, 300, 3000}[r.Intn(3)],
-			Hook: hooks[r.Intn(len(hooks))], Procs: []int{1, 2, 16}[r.Intn(3)]}
+			Hook: hooks[r.Intn(len(hooks))], Procs: []int{1, 2, 16}[r.Intn(3)], LogEvents: r.Chance(1, 3)}
 		if i < len(sizes) {
 			k.Size = sizes[i]
 		} else if c.Thorough() && r.Chance(1, 40) {
